@@ -12,7 +12,7 @@ import ast
 from .. import symex
 from ..core import (AnalysisError, short, unparse, iter_own, call_name, call_recv,
                     is_self_attr, atomic_facts, always_exits, parents, enclosing_stmt,
-                    enclosing_func)
+                    enclosing_func, const_members)
 
 MOD = 'pylatexenc.latex2text._inputlatexfile'
 L2T = 'pylatexenc.latex2text'
@@ -336,9 +336,12 @@ def path_probe_verdict(h, pa, pb):
     if leak:
         return 'prefix', ('%s accepts %s as inside %s: a path outside the directory passes the test'
                           % (h.name, leak[0][0], leak[0][1]))
-    return 'prefix', ('%s rejects %s although it lies inside %s: the test looks at characters, not at path components '
-                      '(names that merely start with two dots are taken for the parent directory), so a file inside '
-                      'the input directory is refused' % (h.name, wrong[0][0], wrong[0][1]))
+    return 'prefix', ('%s rejects %s although it lies inside %s: %s, so a file inside the input directory is refused'
+                      % (h.name, wrong[0][0], wrong[0][1],
+                         'the directory prefix is built wrongly when the directory already ends with the separator (the root)'
+                         if wrong[0][1].endswith('/') else
+                         'the test looks at characters, not at path components (names that merely start with two dots are '
+                         'taken for the parent directory)'))
 
 
 def _is_realpath_call(e):
@@ -442,6 +445,17 @@ def run(ctx):
                     an_ = [unparse(x) for x in inner.args]
                     if len(hp_) == len(an_) and a in an_ and b in an_:
                         verdict, why = path_probe_verdict(h_, hp_[an_.index(a)], hp_[an_.index(b)])
+                elif verdict == 'ok' and isinstance(inner, ast.Call) and isinstance(inner.func, ast.Name) \
+                        and inner.func.id in helpers:
+                    # structurally fine: when the helper is evaluable, the probes (which include the root directory
+                    # and sibling prefixes) must agree as well -- the structural classes do not see boundary cases
+                    h_ = helpers[inner.func.id]
+                    hp_ = [x.arg for x in h_.args.args]
+                    an_ = [unparse(x) for x in inner.args]
+                    if len(hp_) == len(an_) and a in an_ and b in an_:
+                        v2, w2 = path_probe_verdict(h_, hp_[an_.index(a)], hp_[an_.index(b)])
+                        if v2 == 'prefix':
+                            verdict, why = v2, w2
                 if verdict == 'ok':
                     ctx.holds('R15a', m, check, why, construct='containment: ' + short(test))
                 elif verdict == 'prefix':
@@ -589,6 +603,21 @@ def run(ctx):
                'strict_input parameter of set_tex_input_directory does not default to True',
                construct='set_tex_input_directory: default of strict_input')
 
+    # ---- R15k: the published positional order of set_tex_input_directory
+    # (pylatexenc 2.x and 3.x: set_tex_input_directory(tex_input_directory, latex_walker_init_args=None, strict_input=True);
+    #  a caller written against that order passes the walker arguments second -- if `strict_input` moves there, a dict or
+    #  None given for the walker arguments silently becomes the strict flag, and None / {} switch containment off)
+    ctx.rule('R15k', 'set_tex_input_directory keeps its published positional order (tex_input_directory, '
+                     'latex_walker_init_args, strict_input): strict_input is not the second positional parameter, where '
+                     'existing callers pass the walker arguments (a falsy one would switch strict mode off)', 1)
+    pos_ = [a.arg for a in setd.args.args][1:]
+    ctx.decide('R15k', pos_[:3] == ['tex_input_directory', 'latex_walker_init_args', 'strict_input'], l2t, setd,
+               'positional order %s' % pos_,
+               'set_tex_input_directory takes its parameters in the order %s, not (tex_input_directory, latex_walker_init_args, '
+               'strict_input) as published: a caller that passes the walker arguments positionally -- '
+               'set_tex_input_directory(d, {}) or (d, None) -- now sets strict_input to a falsy value, and \\input{../x} is '
+               'read from outside the directory' % pos_, construct='set_tex_input_directory: positional order')
+
     # ---- R15d
     n_sites = 0
     for mod in repo.modules.values():
@@ -707,37 +736,55 @@ def run(ctx):
     ctx.rule('R15i', 'the implicit extensions .tex and .latex are both tried, and on every path to such a completion the only '
                      'tests are file-existence tests: whether a name is completed does not depend on how it is spelled (a '
                      'dot in the name, an upper-case letter), so a name that resolves to a file inside the directory is read', 2)
-    comp = [a_ for a_ in iter_own(fn) if isinstance(a_, ast.Assign) and isinstance(a_.value, ast.BinOp)
-            and isinstance(a_.value.op, ast.Add) and isinstance(a_.value.right, ast.Constant)
-            and isinstance(a_.value.right.value, str) and a_.value.right.value.startswith('.')]
-    exts = sorted({a_.value.right.value for a_ in comp})
-    ctx.decide('R15i', '.tex' in exts and '.latex' in exts, m, comp[0] if comp else fn,
+    # completions `X = X + <ext>`: the extension a literal, or the variable of a loop over a constant sequence; in
+    # read_latex_file itself or in a module-level helper
+    comp = []       # (function, assignment, extensions, loop variable or None)
+    for g_ in [fn] + [h_ for h_ in helpers.values()]:
+        for a_ in iter_own(g_):
+            if not (isinstance(a_, ast.Assign) and isinstance(a_.value, ast.BinOp) and isinstance(a_.value.op, ast.Add)):
+                continue
+            r_ = a_.value.right
+            if isinstance(r_, ast.Constant) and isinstance(r_.value, str) and r_.value.startswith('.'):
+                comp.append((g_, a_, [r_.value], None))
+            elif isinstance(r_, ast.Name):
+                lps_ = [l_ for l_ in parents(a_) if isinstance(l_, ast.For) and isinstance(l_.target, ast.Name)
+                        and l_.target.id == r_.id]
+                mem_ = const_members(m, lps_[0].iter) if lps_ else None
+                if mem_ and all(isinstance(x_, str) and x_.startswith('.') for x_ in mem_):
+                    comp.append((g_, a_, list(mem_), r_.id))
+    exts = sorted({e_ for c_ in comp for e_ in c_[2]})
+    ctx.decide('R15i', '.tex' in exts and '.latex' in exts, m, comp[0][1] if comp else fn,
                'completions tried: %s' % exts, 'read_latex_file completes a name with %s only: the implicit extensions .tex '
                'and .latex are not both tried, a file inside the directory requested without its extension is not read' % exts,
                construct='read_latex_file: implicit extensions')
-    try:
-        ccs = symex.Walker(is_sink=lambda n_: isinstance(n_.op, ast.Add) and isinstance(n_.right, ast.Constant)
-                           and n_.right.value in exts, sink_types=(ast.BinOp,)).run(fn) if comp else []
-    except symex.TooManyPaths:
-        ccs = []
     seen_c = set()
-    for cs in ccs:
-        other = []
-        for t_, p_ in cs.conds:
-            for a_, ap_ in symex._atoms(t_, p_):
-                for leaf in _bool_leaves(a_):
-                    if isinstance(leaf, ast.Call) and unparse(leaf.func) in ('os.path.exists', 'os.path.isfile',
-                                                                            'os.path.lexists', 'exists', 'isfile'):
-                        continue
-                    other.append(('' if ap_ or leaf is not a_ else 'not ') + short(leaf, 60))
-        key_ = (unparse(cs.node), tuple(other))
-        if key_ in seen_c:
-            continue
-        seen_c.add(key_)
-        ctx.decide('R15i', not other, m, cs.node, 'completion under existence tests only',
-                   'the completion `%s` is tried only when %s: a requested name for which this is false (`notes.v2` for the '
-                   'file notes.v2.tex) is never completed, so a file that lies inside the input directory is not read'
-                   % (short(cs.node, 50), ' and '.join(other)), construct='read_latex_file: ' + short(cs.node, 50))
+    for g_ in {id(c_[0]): c_[0] for c_ in comp}.values():
+        lvars = {c_[3] for c_ in comp if c_[0] is g_ and c_[3]}
+        try:
+            ccs = symex.Walker(is_sink=lambda n_: isinstance(n_.op, ast.Add) and (
+                (isinstance(n_.right, ast.Constant) and n_.right.value in exts) or
+                (isinstance(n_.right, ast.Name) and n_.right.id in lvars)) and isinstance(
+                    getattr(n_, '_parent', None), (ast.Assign, type(None))), sink_types=(ast.BinOp,)).run(g_)
+        except symex.TooManyPaths:
+            ccs = []
+            ctx.unknown('R15i', m, g_, 'too many paths', construct='read_latex_file: completion paths')
+        for cs in ccs:
+            other = []
+            for t_, p_ in cs.conds:
+                for a_, ap_ in symex._atoms(t_, p_):
+                    for leaf in _bool_leaves(a_):
+                        if isinstance(leaf, ast.Call) and unparse(leaf.func) in ('os.path.exists', 'os.path.isfile',
+                                                                                'os.path.lexists', 'exists', 'isfile'):
+                            continue
+                        other.append(('' if ap_ or leaf is not a_ else 'not ') + short(leaf, 60))
+            key_ = (unparse(cs.node), tuple(other))
+            if key_ in seen_c:
+                continue
+            seen_c.add(key_)
+            ctx.decide('R15i', not other, m, cs.node, 'completion under existence tests only',
+                       'the completion `%s` is tried only when %s: a requested name for which this is false (`notes.v2` for the '
+                       'file notes.v2.tex) is never completed, so a file that lies inside the input directory is not read'
+                       % (short(cs.node, 50), ' and '.join(other)), construct='read_latex_file: ' + short(cs.node, 50))
 
     return 'other', (
         'Decides, on the source of read_latex_file / read_input_file, the necessary structural '
